@@ -30,6 +30,7 @@ RULE = (
     "half fully shuffled). Non-trivial: at least one wait had to block (request observed before the publication); distinct = interleaving signature."
 )
 DECIDING = {
+    "abandoned_generation_waiters_served": "components served although the requester that had started the asynchronous generation gave up half-way",
     "crowd_waiters_released": "components released in scenarios with 2-6 components waiting at once while siblings publish in bursts",
     "crowd_scenarios_with_a_slow_listener": "... with a slow long-lived listener (queue of 1 or 3) on resource_added",
     "waits_that_blocked": "request before publication (waiter really waited)",
@@ -59,6 +60,10 @@ def plan(tier: str) -> dict[str, Any]:
 
 def gen_case(idx: int, seed: int, tier: str) -> Any:
     rng = case_rng(PROPERTY, seed, idx)
+    if idx % 16 == 11:
+        return {"kind": "abandoned", "backend": rng.choice(["asyncio", "trio"]), "sched_seed": rng.randrange(1 << 30), "shuffle": rng.random() < 0.5,
+                "gen_time": rng.choice([0.5, 1.0, 2.0]), "give_up_after": rng.choice([0.25, 0.75]), "second_request_at": rng.choice([0.125, 0.1875, 0.375]),  # (after the quitter's request, so that the generation is the quitter's)
+                "how": rng.choice(["timeout", "factory_raises"]), "others": rng.randint(1, 3), "published_before": rng.random() < 0.5}
     if idx % 8 == 5:
         n = rng.randint(2, 6)
         order = list(range(n))
@@ -143,6 +148,103 @@ async def crowd_scenario(case: dict[str, Any], out: dict[str, Any]) -> None:
             tg.cancel_scope.cancel()
 
 
+async def abandoned_scenario(case: dict[str, Any], out: dict[str, Any]) -> None:
+    """one component requests a resource made by a slow asynchronous factory and gives up half-way (its own timeout strikes, or
+    the factory's first run raises) while 1-3 sibling components are waiting for the very same resource: they must all get it
+    - one object - instead of staying blocked behind the abandoned generation"""
+    import anyio
+    from asphalt.core import Component, Context, add_resource_factory, get_resource, start_component
+
+    calls = [0]
+    t0 = [0.0]
+
+    class Res:
+        pass
+
+    async def factory() -> Res:
+        calls[0] += 1
+        n = calls[0]
+        if case["how"] == "factory_raises" and n == 1:
+            await anyio.sleep(case["give_up_after"])
+            raise RuntimeError("first generation failed")
+        await anyio.sleep(case["gen_time"])
+        return Res()
+
+    class Publisher(Component):
+        async def start(self) -> None:
+            add_resource_factory(factory, types=[Res])
+
+    class Quitter(Component):
+        async def start(self) -> None:
+            try:
+                if case["how"] == "timeout":
+                    with anyio.move_on_after(case["give_up_after"]):
+                        await get_resource(Res)
+                else:
+                    await get_resource(Res)
+            except RuntimeError:
+                out["quitter_saw_failure"] = True
+
+    def make_other(i: int) -> Any:
+        async def start(self: Any) -> None:
+            await anyio.sleep(case["second_request_at"] + 0.0625 * i)
+            got = await get_resource(Res)
+            out["got"][i] = (got, anyio.current_time() - t0[0])
+
+        return type(f"Other{i}", (Component,), {"start": start})
+
+    class Root(Component):
+        def __init__(self) -> None:
+            self.add_component("publisher", Publisher)
+            self.add_component("quitter", Quitter)
+            for i in range(case["others"]):
+                self.add_component(f"other{i}", make_other(i))
+
+        async def prepare(self) -> None:
+            if case["published_before"]:
+                add_resource_factory(factory, "early", types=[Res])  # (another name: only to vary what is in the context)
+
+    async with Context() as ctx:
+        t0[0] = anyio.current_time()
+        try:
+            with anyio.fail_after(100):
+                await start_component(Root, timeout=None)
+            out["returned_at"] = anyio.current_time() - t0[0]
+        except BaseException as e:
+            out["error"] = e
+        else:
+            out["later"] = await ctx.get_resource(Res)
+    out["calls"] = calls[0]
+
+
+def run_abandoned(case: dict[str, Any]) -> dict[str, Any]:
+    from vkit.trace import describe_exc
+    from vkit.vtime import VirtualDeadlock, run_virtual
+
+    out: dict[str, Any] = {"got": {}}
+    V: list[dict[str, Any]] = []
+
+    def bad(key: str, msg: str) -> None:
+        V.append({"key": key, "msg": f"a requester gave up ({case['how']}) while {case['others']} component(s) waited for the same factory-made resource: {msg}",
+                  "witness": {"case": case, "outcome": {k: (describe_exc(v) if isinstance(v, BaseException) else repr(v)) for k, v in out.items()}}})
+
+    try:
+        run_virtual(case["backend"], abandoned_scenario, case, out, sched_seed=case["sched_seed"], shuffle=case["shuffle"])
+    except VirtualDeadlock as e:
+        bad("start-deadlock", f"start-up never finished: {e}")
+    if not V:
+        if "error" in out:
+            bad("start-timeout" if isinstance(out["error"], TimeoutError) else "start-raised", f"start_component ended with {describe_exc(out['error'])}; served: {sorted(out['got'])}")
+        else:
+            objs = [o for o, _ in out["got"].values()]
+            if len(objs) != case["others"]:
+                bad("wait-never-released", f"only {len(objs)} of {case['others']} waiting components were served")
+            elif any(o is not out.get("later") for o in objs):
+                bad("wait-wrong-object", "the waiting components did not all receive the object the context returns afterwards")
+    c = {"abandoned_generation_scenarios": 1, "abandoned_generation_waiters_served": len(out["got"])}
+    return {"violations": V[:3], "sig": ("abandoned", tuple(sorted((k, str(v)) for k, v in case.items()))), "nontrivial": True, "counters": c, "sample": None}
+
+
 def run_crowd(case: dict[str, Any]) -> dict[str, Any]:
     import warnings
 
@@ -185,6 +287,8 @@ def run_crowd(case: dict[str, Any]) -> dict[str, Any]:
 def run_case(case: Any) -> dict[str, Any]:
     if case.get("kind") == "crowd":
         return run_crowd(case)
+    if case.get("kind") == "abandoned":
+        return run_abandoned(case)
     run = e2.execute(case)
     V, c = e2.check_success(run)
     tree = case["tree"]
